@@ -13,7 +13,7 @@ def main():
     tier = vlib.tier_arg(sys.argv)
     rep = vlib.Report("C02", tier, "model_checking")
     binary = build_broker()
-    U = "all interleavings (unbounded preemptions, sleep-set reduction)"
+    U = "all interleavings up to Mazurkiewicz equivalence (unbounded preemptions; DPOR + sleep sets)"
     if tier == "quick":
         passes = [
             {"harness": "c02", "cfg": {"P": "1", "C": "2", "beh": "3", "via": "4", "fp": "3"}, "budget_s": 30,
